@@ -50,9 +50,10 @@ func (d *Data) MergeLabels(v dvid.VersionID, op labels.MergeOp, info dvid.ModInf
 	}
 	dvid.Debugf("Merging %s into label %d ...\n", op.Merged, op.Target)
 
-	// Label index read-modify-write must not interleave with other label mutations.
-	d.voxelMu.Lock()
-	defer d.voxelMu.Unlock()
+	// Label index read-modify-write must not interleave with other merge/cleave/renumber ops.
+	// (Not voxelMu: the split ops take a label index shard lock before voxelMu.)
+	d.labelMu.Lock()
+	defer d.labelMu.Unlock()
 
 	d.StartUpdate()
 	defer d.StopUpdate()
@@ -208,9 +209,10 @@ func (d *Data) MergeLabels(v dvid.VersionID, op labels.MergeOp, info dvid.ModInf
 //
 // labels.MergeEndEvent occurs at end of merge and transmits labels.DeltaMergeEnd struct.
 func (d *Data) RenumberLabels(v dvid.VersionID, origLabel, newLabel uint64, info dvid.ModInfo) (mutID uint64, err error) {
-	// Label index read-modify-write must not interleave with other label mutations.
-	d.voxelMu.Lock()
-	defer d.voxelMu.Unlock()
+	// Label index read-modify-write must not interleave with other merge/cleave/renumber ops.
+	// (Not voxelMu: the split ops take a label index shard lock before voxelMu.)
+	d.labelMu.Lock()
+	defer d.labelMu.Unlock()
 
 	var isPresent bool
 	isPresent, err = d.labelIndexExists(v, newLabel)
@@ -355,9 +357,10 @@ func (d *Data) CleaveLabel(v dvid.VersionID, label uint64, info dvid.ModInfo, r 
 		return
 	}
 
-	// Label index read-modify-write must not interleave with other label mutations.
-	d.voxelMu.Lock()
-	defer d.voxelMu.Unlock()
+	// Label index read-modify-write must not interleave with other merge/cleave/renumber ops.
+	// (Not voxelMu: the split ops take a label index shard lock before voxelMu.)
+	d.labelMu.Lock()
+	defer d.labelMu.Unlock()
 
 	cleaveLabel, err = d.newLabel(v)
 	if err != nil {
